@@ -37,11 +37,69 @@ type c11Hub struct {
 	// script[dev][phase] for the request currently under test; absent => accept
 	script map[string]map[string]string
 	active bool
+	// the form of the backend's answer to the request under test (backend-relative path answerPath)
+	answer     string
+	answerPath string
 }
 
 type c11Dev struct {
 	name string
 	hub  *c11Hub
+}
+
+// c11BE is the recording backend with one more degree of freedom: the form of its answer. A backend may answer a
+// request with data, with an error response, with a Go error, or with several of these at once (a response - data
+// included - together with an error); the core hands such a pair on as it is. Which form the request under test
+// gets is drawn per case (c11Hub.answer); everything else is the recording backend's behaviour.
+type c11BE struct {
+	logical.Backend
+	ah *c11Hub
+}
+
+var c11Answers = []string{"as-is", "as-is", "response+error", "response+sentinel-error", "error-response-with-data", "error-response-with-data+error", "error-response", "nil+error"}
+
+func (b *c11BE) HandleRequest(ctx context.Context, req *logical.Request) (*logical.Response, error) {
+	resp, err := b.Backend.HandleRequest(ctx, req)
+	switch req.Operation {
+	case logical.RevokeOperation, logical.RenewOperation, logical.RollbackOperation, logical.HelpOperation:
+		return resp, err
+	}
+	b.ah.mu.Lock()
+	answer := "as-is"
+	if b.ah.active && b.ah.answerPath == req.Path {
+		answer = b.ah.answer
+	}
+	b.ah.mu.Unlock()
+	if err != nil || answer == "as-is" {
+		return resp, err
+	}
+	withError := func(r *logical.Response) *logical.Response {
+		if r == nil {
+			return logical.ErrorResponse("recbe: the operation was only partly carried out")
+		}
+		// an error response holds an "error" element alone or together with a "data" element (Response.IsError)
+		if len(r.Data) == 0 {
+			r.Data = map[string]any{"error": "recbe: the operation was only partly carried out"}
+		} else {
+			r.Data = map[string]any{"error": "recbe: the operation was only partly carried out", "data": r.Data}
+		}
+		return r
+	}
+	switch answer {
+	case "response+error":
+		return resp, errors.New("recbe: a problem was found after the answer had been produced")
+	case "response+sentinel-error":
+		return resp, logical.ErrInvalidRequest
+	case "error-response-with-data":
+		return withError(resp), nil
+	case "error-response-with-data+error":
+		return withError(resp), errors.New("recbe: a problem was found after the answer had been produced")
+	case "error-response":
+		return logical.ErrorResponse("recbe: refused"), nil
+	case "nil+error":
+		return nil, errors.New("recbe: failed")
+	}
+	return resp, err
 }
 
 func (d *c11Dev) log(phase string, in *logical.LogInput) error {
@@ -95,7 +153,13 @@ func newC11Env(t *testing.T, ndev int) *c11Env {
 		}
 	}
 	tc := mustBoot(t, coreOpts{transactional: true, audits: factories,
-		logical: map[string]logical.Factory{"recbe": hub.factory("recbe", logical.TypeLogical)}})
+		logical: map[string]logical.Factory{"recbe": func(ctx context.Context, conf *logical.BackendConfig) (logical.Backend, error) {
+			inner, err := hub.factory("recbe", logical.TypeLogical)(ctx, conf)
+			if err != nil {
+				return nil, err
+			}
+			return &c11BE{Backend: inner, ah: ah}, nil
+		}}})
 	tc.mount("rb", "recbe", nil)
 	tc.writePolicy("c11", `path "rb/*" { capabilities = ["create","read","update","delete","list"] }`)
 	e := &c11Env{tc: tc, hub: hub, ah: ah}
@@ -130,7 +194,7 @@ func newC11Env(t *testing.T, ndev int) *c11Env {
 }
 
 func TestVerif_C11_BrokerOrder(t *testing.T) {
-	rec := verifx.NewRecorder("C11", "broker-order", "a core with 1-3 scripted audit devices and a recording backend; each request (echo returning a canary, kv read of a canary, leased secret, kv write, list) draws for every device and for both phases (request entry, response entry) one of accept / error / panic; oracle on a global logical clock: a backend invocation implies an earlier accepted request entry of that request; response data reaching the client implies an accepted response entry; if every device failed the request entry there is no invocation and the client gets an error without the canary; if every device failed the response entry the client gets an error without the canary; with at least one accept and a panic either outcome is allowed; in a third of the cases the client's context ends before the request, inside the existence check (between token check and request audit) or inside the handler (before the response audit): the same implications must hold; non-trivial = at least one failing device in either phase, or an ended client context")
+	rec := verifx.NewRecorder("C11", "broker-order", "a core with 1-3 scripted audit devices and a recording backend; each request (echo returning a canary, kv read of a canary, leased secret, kv write, list) draws for every device and for both phases (request entry, response entry) one of accept / error / panic; oracle on a global logical clock: a backend invocation implies an earlier accepted request entry of that request; response data reaching the client implies an accepted response entry; if every device failed the request entry there is no invocation and the client gets an error without the canary; if every device failed the response entry the client gets an error without the canary; with at least one accept and a panic either outcome is allowed; the backend's answer to the request has a drawn form (its data as it is; the response together with a Go error; an error response that still holds the data, with or without a Go error; a bare error response; a bare error) and the canary is searched in everything the caller gets back (whole response and error text); in a third of the cases the client's context ends before the request, inside the existence check (between token check and request audit) or inside the handler (before the response audit): the same implications must hold; non-trivial = at least one failing device in either phase, or an ended client context")
 	defer rec.Flush()
 	envs := map[int]*c11Env{}
 	defer func() {
@@ -163,6 +227,8 @@ func TestVerif_C11_BrokerOrder(t *testing.T) {
 				}
 			}
 		}
+		// the form of the backend's answer: data, an error response, a Go error, or several at once
+		answer := c11Answers[fairIndex(rt, "backendAnswer", len(c11Answers))]
 		inNS := fairIndex(rt, "requestInChildNamespace", 3) == 0
 		if kind == "kvread" {
 			// seed the value without faults
@@ -220,6 +286,7 @@ func TestVerif_C11_BrokerOrder(t *testing.T) {
 		e.hub.mu.Unlock()
 		e.ah.mu.Lock()
 		e.ah.script, e.ah.events, e.ah.active = script, nil, true
+		e.ah.answer, e.ah.answerPath = answer, strings.TrimPrefix(req.Path, "rb/")
 		e.ah.mu.Unlock()
 		callsBefore := len(e.hub.handlerCalls())
 		res := tc.doCtx(ctx, req)
@@ -242,10 +309,21 @@ func TestVerif_C11_BrokerOrder(t *testing.T) {
 				invoked = append(invoked, c)
 			}
 		}
+		// the canary anywhere in what the caller of Core.HandleRequest gets back: the whole response (data, warnings,
+		// headers, secret, auth, wrap info) and the error text
 		leaked := false
 		if res.resp != nil {
-			b, _ := json.Marshal(res.resp.Data)
-			leaked = strings.Contains(string(b), canary)
+			b, jerr := json.Marshal(res.resp)
+			if jerr != nil {
+				b, _ = json.Marshal(res.resp.Data)
+			}
+			leaked = strings.Contains(string(b), canary) || strings.Contains(fmt.Sprintf("%v %v %v", res.resp.Data, res.resp.Warnings, res.resp.Headers), canary)
+		}
+		if res.err != nil && strings.Contains(res.err.Error(), canary) {
+			leaked = true
+		}
+		if answer != "as-is" {
+			rec.Class("backend-answer:"+answer, 1)
 		}
 		// summarise
 		acc := map[string]int{}
@@ -266,9 +344,9 @@ func TestVerif_C11_BrokerOrder(t *testing.T) {
 		for i, ev := range events {
 			evs[i] = fmt.Sprintf("#%d %s %s %s", ev.seq, ev.dev, ev.phase, ev.outcome)
 		}
-		detail := map[string]any{"devices": ndev, "kind": kind, "in_child_namespace": inNS, "client_context_ended": cancelAt, "script": fmt.Sprint(script), "audit_events": evs, "invocations": len(invoked), "result": res.String(), "canary_in_response": leaked}
+		detail := map[string]any{"devices": ndev, "kind": kind, "backend_answer": answer, "in_child_namespace": inNS, "client_context_ended": cancelAt, "script": fmt.Sprint(script), "audit_events": evs, "invocations": len(invoked), "result": res.String(), "canary_in_response": leaked}
 		carries := kind == "echo" || kind == "kvread" || kind == "secret"
-		rec.Case(fmt.Sprintf("devs=%d", ndev), failing || cancelAt != "never", verifx.Digest(ndev, kind, cancelAt, inNS, fmt.Sprint(script)), func() any { return detail })
+		rec.Case(fmt.Sprintf("devs=%d", ndev), failing || cancelAt != "never", verifx.Digest(ndev, kind, answer, cancelAt, inNS, fmt.Sprint(script)), func() any { return detail })
 		// (1) invocation implies an earlier accepted request entry
 		for _, c := range invoked {
 			if acc["req"] == 0 || firstAccept["req"] > c.Seq {
@@ -303,8 +381,12 @@ func TestVerif_C11_BrokerOrder(t *testing.T) {
 			}
 		}
 		// (4) no failure scripted at all => the request must succeed (an always-refuse broker cannot pass)
-		if !failing && cancelAt == "never" && (!res.ok() || len(invoked) != 1) {
+		// (a backend that answers with an error makes the request fail by itself; it must still have been invoked)
+		if !failing && cancelAt == "never" && ((answer == "as-is" && !res.ok()) || len(invoked) != 1) {
 			rec.Violation(rt, "request-refused-although-audit-ok", detail, "all devices accept but the request failed (%v, invocations %d) | %v", res, len(invoked), detail)
+		}
+		if allRespFailed && !allReqFailed && answer != "as-is" && len(invoked) > 0 {
+			rec.Class("all-response-entries-failed+backend-answer-with-error", 1)
 		}
 		if pan["req"]+pan["resp"] > 0 {
 			rec.Class("with-panic", 1)
